@@ -4,7 +4,7 @@ checkerlang implementation.  Usage:  validate.py [seed] [nrandom]
 The real interpreter runs in worker processes, every call under an alarm, every worker under
 a wall-clock timeout."""
 import sys, os, re, json, random, itertools, subprocess, signal, time, collections
-sys.path.insert(0, '/repo/src')
+sys.path.insert(0, __import__('os').environ.get('CKL_REPO', '/repo') + '/src')
 
 DRIVER = '/tmp/agents/K/verif/lean/.lake/build/bin/driver'
 WORK = '/tmp/agents/K/work'
